@@ -13,12 +13,23 @@
 (*   AliasNeutral   the verdict never depends on the alias kind or on the  *)
 (*                  route (an alias never widens or narrows access);       *)
 (*   PrivateStable  no sequence of outside accesses changes a member that  *)
-(*                  is behind a private hop.                               *)
-(* With D1 or D2 set, Refines must be refuted (self-test of the audit).    *)
+(*                  is behind a private hop;                               *)
+(*   InsideReads    a dot path of the code of a package (relative to the   *)
+(*                  package it runs in or to one that encloses it) reaches *)
+(*                  every member of its own package, private or not, and   *)
+(*                  the keys below it, and stops at the private members of *)
+(*                  the packages nested in it.                             *)
+(* A dot path written OUTSIDE that is handed to code of a package as a     *)
+(* value (Packages!ApplyRel) is one more kind of transition: dereferenced  *)
+(* where it was written (outside, where its first name is not bound) it    *)
+(* fails, which the specification always admits; dereferenced where the    *)
+(* receiving code runs (switch D3, Packages!ImplRel) it reads private      *)
+(* members.                                                                *)
+(* With D1, D2 or D3 set, Refines must be refuted (self-test of the audit).*)
 (***************************************************************************)
 EXTENDS Packages, TLC
 
-CONSTANTS D1, D2, MaxSteps, Depth, StepTrees
+CONSTANTS D1, D2, D3, MaxSteps, Depth, StepTrees
 
 N(r, s) == <<r, s>>
 cU == 1  cL == 2  cN == 3
@@ -78,7 +89,7 @@ Paths(n) == IF ~IsCont(n) THEN {}
 
 RoutesFor(t, p) ==
     LET n == NodeAt(t, p) par == NodeAt(t, SubSeq(p, 1, Len(p) - 1)) IN
-    {"typeq", "uarg", "rhs", "rhsdef", "rhsset", "let", "star", "infix", "prefix", "set", "infixdef"}
+    {"typeq", "uarg", "rhs", "rhsdef", "rhsset", "let", "star", "infix", "prefix", "set", "infixdef", "multi2"}
       \cup (IF n[1] = "val" THEN {"plus"} ELSE {})
       \cup (IF n[1] = "fn" THEN {"call"} ELSE {})
       \cup (IF par[1] = "hash" /\ Len(p) > 1 THEN {"hset"} ELSE {})
@@ -92,6 +103,14 @@ AccessesOf(t, kind, p) ==
     { [op |-> "out", al |-> <<kind, k>>, p |-> p, rt |-> rt, v |-> 7] :
           <<k, rt>> \in { <<k, rt>> \in (0..8) \X RoutesFor(t, p) : k \in Ks(t, p, kind, rt) } }
 
+(* the dot path p[c+1..] written outside and handed to code of the package *)
+(* at fp, as an argument / in data                                         *)
+PkgPaths(t) == {<<>>} \cup {p \in Paths(t) : NodeAt(t, p)[1] = "pkg"}
+RelAccessesOf(t, p) ==
+    { [op |-> "rel", fp |-> x[2], c |-> x[1], p |-> p, rt |-> x[3]] :
+          x \in { y \in (0..(Len(p) - 1)) \X PkgPaths(t) \X {"arg", "cblet"} :
+                     RelDefined(t, [fp |-> y[2], c |-> y[1], p |-> p]) } }
+
 (* the state keeps the index of the initial tree and the writes performed  *)
 (* (location, value) instead of the tree itself: small states              *)
 VARIABLES ti, writes, last, steps, pend
@@ -103,7 +122,7 @@ init == TreeSeq[ti]
 tree == Replay(init, writes, 1)
 
 NoPend == <<"none", <<>>>>
-Idle == [al |-> <<"direct", 0>>, p |-> <<>>, rt |-> "none", vis |-> "init", ok |-> TRUE, same |-> TRUE, neutral |-> TRUE, privw |-> FALSE]
+Idle == [al |-> <<"direct", 0>>, p |-> <<>>, rt |-> "none", vis |-> "init", ok |-> TRUE, same |-> TRUE, neutral |-> TRUE, privw |-> FALSE, ins |-> TRUE]
 
 (* the result the walkers produce *)
 Produced(o, d) ==
@@ -116,11 +135,11 @@ Init == /\ ti \in 1..Len(TreeSeq) /\ writes = <<>> /\ last = Idle /\ steps = 0 /
 (* choosing (alias kind, path) is a transition of its own so that TLC's    *)
 (* workers share the enumeration                                           *)
 Pick == /\ steps < MaxSteps /\ pend = NoPend
-        /\ \E kind \in AliasKinds, p \in Paths(tree) : pend' = <<kind, p>>
+        /\ \E kind \in AliasKinds \cup {"rel"}, p \in Paths(tree) : pend' = <<kind, p>>
         /\ UNCHANGED <<ti, writes, last, steps>>
 
 Do ==
-    /\ pend # NoPend
+    /\ pend # NoPend /\ pend[1] # "rel"
     /\ \E a \in AccessesOf(tree, pend[1], pend[2]) :
          LET d == ImplDo(tree, a, D1, D2)
              o == [op |-> "out", al |-> a.al, p |-> a.p, rt |-> a.rt, v |-> a.v, res |-> Produced(a, d)]
@@ -131,17 +150,35 @@ Do ==
          IN /\ writes' = IF s.c = tree THEN writes ELSE Append(writes, <<a.p, a.v>>)
             /\ last' = [al |-> a.al, p |-> a.p, rt |-> a.rt, vis |-> s.vis, ok |-> s.ok, same |-> (s.c = d.c),
                         neutral |-> (s.vis = "undef" \/ s.vis = Join(pre, base)),
-                        privw |-> (s.c # tree /\ \E i \in 1..Len(a.p) : PrivateHop(tree, a.p, i))]
+                        privw |-> (s.c # tree /\ \E i \in 1..Len(a.p) : PrivateHop(tree, a.p, i)), ins |-> TRUE]
             /\ steps' = steps + 1
             /\ pend' = NoPend
             /\ UNCHANGED ti
 
-Next == Pick \/ Do
+DoRel ==
+    /\ pend # NoPend /\ pend[1] = "rel"
+    /\ \E a \in RelAccessesOf(tree, pend[2]) :
+         LET ins == ImplRel(tree, a)
+             res == IF ~D3 \/ ins.k = "err" THEN <<"err", "x">> ELSE <<"val", Abs(ins.n)>>
+             o == [op |-> "rel", fp |-> a.fp, c |-> a.c, p |-> a.p, rt |-> a.rt, res |-> res]
+             s == ApplyRel(tree, o)
+             base == RelVis(tree, [fp |-> SubSeq(a.p, 1, a.c), c |-> a.c, p |-> a.p])
+             deeper == \E i \in (a.c + 2)..Len(a.p) : PrivateHop(tree, a.p, i)
+         IN /\ last' = [al |-> <<"rel", a.c>>, p |-> a.p, rt |-> a.rt, vis |-> s.vis, ok |-> s.ok, same |-> (s.c = tree),
+                        neutral |-> (s.vis = base /\ (s.vis = "no" => Visible(tree, a.p).vis = "no")),
+                        privw |-> FALSE,
+                        ins |-> IF deeper THEN ins.k = "err" ELSE (ins.k = "val" /\ ins.n = NodeAt(tree, a.p))]
+            /\ steps' = steps + 1
+            /\ pend' = NoPend
+            /\ UNCHANGED <<ti, writes>>
+
+Next == Pick \/ Do \/ DoRel
 Spec == Init /\ [][Next]_vars
 
 Refines == last.ok /\ last.same
 AliasNeutral == last.neutral
 NoPrivateWrite == ~last.privw
+InsideReads == last.ins
 
 (* the audits range over every path of the tree; they are evaluated on the *)
 (* initial trees and on every tree produced by a write (once per write:    *)
